@@ -814,6 +814,11 @@ func (c *Conn) readRecordOrCCS(expectChangeCipherSpec bool) error {
 				}
 				continue
 			}
+			if expectChangeCipherSpec && !handshakeComplete && !c.isClient && len(data) > 0 && data[0] == typeClientHello {
+				// 服务端等待对端 CCS 时收到重传的 ClientHello（我方上一 flight 丢失，对端超时重传）：
+				// 丢弃，由重传定时器重发我方 flight
+				continue
+			}
 			if len(data) == 0 || expectChangeCipherSpec {
 				return c.in.setErrorLocked(c.sendAlert(alertUnexpectedMessage))
 			}
